@@ -45,6 +45,8 @@ FirstFail(s2, e) ==
   \* --- property clauses
   ELSE IF On("sh")    /\ \E h \in hs : o.t[h].sh # s2.H[h].sh THEN "sh"
   ELSE IF On("val")   /\ \E h \in hs : o.t[h].v # Vals(s2, h) THEN "val"
+  \* the dtype of every tensor is the dtype of the NumPy twin's array (C03; a comparison of the two executions)
+  ELSE IF On("dtype") /\ \E h \in hs : o.t[h].dt # o.t[h].np_dt THEN "dtype"
   ELSE IF On("const") /\ \E h \in hs : o.t[h].const # s2.H[h].const THEN "const"
   ELSE IF On("share") /\ ObsPairs(o.share) # SharePairs(s2) THEN "share"
   ELSE IF On("base")  /\ \E h \in hs : o.t[h].base # ObsBase(s2, h) THEN "base"
